@@ -18,6 +18,11 @@ Algs == {0 - 1 - n : n \in AlgNs}
 AlgV(alg) == [t |-> "alg", neg |-> TRUE, a |-> NatToArg(0 - 1 - alg)]
 KidN(n) == <<GoInt("int64", 4), GoBytes([i \in 1..n |-> 48 + (i % 10)])>>
 NestedMap == [t |-> "map", ps |-> <<<<GoInt("int64", 2), GoStr(<<120>>)>>, <<GoInt("int64", 1), [t |-> "arr", xs |-> <<[t |-> "bool", v |-> TRUE], GoNeg("int64", 99)>>]>>>>]
+\* a value nested n arrays deep, and a map nested n maps deep
+RECURSIVE DeepArr(_)
+DeepArr(n) == IF n = 0 THEN GoInt("int64", 1) ELSE [t |-> "arr", xs |-> <<DeepArr(n - 1)>>]
+RECURSIVE DeepMap(_)
+DeepMap(n) == IF n = 0 THEN GoStr(<<120>>) ELSE [t |-> "map", ps |-> <<<<GoInt("int64", n), DeepMap(n - 1)>>>>]
 \* protected / unprotected shapes; id 1 leaves alg out (the signer's algorithm is inserted by Sign)
 HdrP(id, alg) ==
   CASE id \in {1, 8} -> <<>>
@@ -27,12 +32,16 @@ HdrP(id, alg) ==
     [] id = 4 -> <<<<GoInt("int64", 1), AlgV(alg)>>, KidN(17), <<GoStr(<<120, 121>>), NestedMap>>, <<GoNeg("int16", 300), GoInt("uint16", 65535)>>>>
     [] id = 5 -> <<<<GoInt("int64", 1), AlgV(alg)>>, KidN(249)>>                \* protected map of exactly 255 bytes
     [] id = 6 -> <<<<GoInt("int64", 1), AlgV(alg)>>, KidN(250)>>                \* 256 bytes
+    [] id = 9 -> <<<<GoInt("int64", 1), AlgV(alg)>>, <<GoInt("int64", 99), DeepArr(12)>>>>                       \* deeply nested values
+    [] id = 10 -> <<<<GoInt("int64", 1), AlgV(alg)>>>> \o [i \in 1..300 |-> <<GoInt("int64", 1000 + i), GoInt("int64", i)>>]   \* hundreds of entries
     [] id = 7 -> <<<<GoInt("int64", 1), AlgV(alg)>>>> \o [i \in 1..30 |-> <<(IF i % 2 = 0 THEN GoInt("int16", 100 + i) ELSE GoNeg("int64", 200 + i)), GoInt("int64", i)>>]   \* dozens of entries
 HdrU(id) ==
   CASE id \in {1, 2, 5, 8} -> <<>>
     [] id = 3 -> <<<<GoInt("int64", 5), GoBytes(<<1, 2, 3>>)>>, <<GoStr(<<117>>), NestedMap>>>>
     [] id \in {4, 6} -> <<<<GoInt("int64", 4), GoBytes(<<49>>)>>>>
     [] id = 7 -> [i \in 1..26 |-> <<GoStr(<<97 + (i % 26), 48 + (i % 10)>>), GoBytes(<<i>>)>>]
+    [] id = 9 -> <<<<GoInt("int64", 98), DeepMap(12)>>>>
+    [] id = 10 -> [i \in 1..300 |-> <<GoNeg("int64", 1000 + i), GoBytes(<<i % 256>>)>>]
 
 Payload(n) == IF n <= 300 THEN [i \in 1..n |-> (i * 7) % 256] ELSE <<0 - 2, n \div 65536, (n \div 256) % 256, n % 256>>   \* token: harness expands
 Exts == { [ext |-> <<>>, extnil |-> TRUE, extempty |-> FALSE], [ext |-> <<>>, extnil |-> FALSE, extempty |-> TRUE], [ext |-> <<9, 8, 7>>, extnil |-> FALSE, extempty |-> FALSE] }
